@@ -15,13 +15,13 @@ def build_tree(rng, root, idx):
     for _ in range(rng.choice([1, 2, 3])):
         parent = rng.choice(dirs)
         if parent.count("/") < 3:
-            d = os.path.join(parent, rng.choice(["a", "b", "dir.slice", "sub", "ü"]) + str(len(dirs)))
+            d = os.path.join(parent, rng.choice(["a", "b", "dir.slice", "sub", "ü", "refs,old", "k=v"]) + str(len(dirs)))
             os.makedirs(os.path.join(root, d))
             dirs.append(d)
     for _ in range(rng.choice([2, 3, 4, 6])):
         parent = rng.choice(dirs)
         n += 1
-        name = rng.choice(["f%d.slice", "g%d.slice", "x.y%d.slice", "notes%d.txt", "f%d.slice.bak", ".slice", "h%d.SLICE", "noext%d", "..%d.slice"])
+        name = rng.choice(["f%d.slice", "g%d.slice", "x.y%d.slice", "notes%d.txt", "f%d.slice.bak", ".slice", "h%d.SLICE", "noext%d", "..%d.slice", "types,v%d.slice", "a=b%d.slice", "sp ace%d.slice"])
         name = name % n if "%d" in name else name
         p = os.path.join(parent, name)
         full = os.path.join(root, p)
@@ -181,7 +181,7 @@ def run(ck):
         m = core.run_model("fileset", mlines, chunk=300)
     finally:
         shutil.rmtree(base, ignore_errors=True)
-    ck.stream("filesets", description="random directory trees (depth <= 4; .slice and other files, names like '.slice', 'x.y.slice', 'f.slice.bak', 'h.SLICE', directories named '*.slice', "
+    ck.stream("filesets", description="random directory trees (depth <= 4; .slice and other files, names like '.slice', 'x.y.slice', 'f.slice.bak', 'h.SLICE', names with commas, '=' and spaces, directories named '*.slice', the argument lists passed through the command-line parser, "
               "non-UTF-8 files, symbolic links to files, to directories and to nothing) x argument lists that alias the same file through './', '..', '//', '..' after a link to a directory (next to the file the text seems to name), absolute paths and links, in both lists, with repeats, "
               "with a source also given as a reference, with directories as references. compile_from_options in that tree vs the model fed with the file system's answers (kind, canonical identity, directory "
               "listing in the OS's order, readability): the compiled files with their roles in order, every error and DuplicateFile warning, and that nothing is parsed after an error.")
